@@ -102,6 +102,35 @@ def stack_cases():
                         yield {'kind': 'stack', 'group': g, 'stack': list(stack), 'extras': extras[:k], 'layout': layout}
 
 
+def wide_cases():
+    """Many effect groups set, changed or cleared at ONE change point (the optimiser has to bridge all of them in one
+    sequence): the first k groups' values on 'a', other values / clear codes / nothing on 'b'."""
+    gs = list(T.GROUPS)
+    for k in (5, 6, 7, 8, 10, 12, 14):
+        first = [GROUP_VALUES[g][0][0] for g in gs[:k]]
+        other = [GROUP_VALUES[g][0][-1] for g in gs[:k]]
+        clear = [GROUP_VALUES[g][1] for g in gs[:k]]
+        rot = first[k // 2:] + first[:k // 2]
+        for name, second in (('changed', other), ('cleared', clear), ('ended', []), ('same', first), ('reordered', rot),
+                             ('stacked_twice', first + other)):
+            for lay in ('adjacent', 'nested', 'gap'):
+                yield {'kind': 'wide', 'k': k, 'first': first, 'second': second, 'how': name, 'layout': lay}
+
+
+def build_wide_case(case):
+    s = AnsiString('abc')
+    a_rng, b_rng = {'adjacent': ((0, 1), (1, 2)), 'nested': ((0, 3), (1, 2)), 'gap': ((0, 1), (2, 3))}[case['layout']]
+    for c in case['first']:
+        s.apply_formatting(AnsiSetting(c), *a_rng)
+    for c in case['second']:
+        s.apply_formatting(AnsiSetting(c), *b_rng)
+    return s
+
+
+def check_wide_case(case, prop):
+    check_stack_case(case, prop, build=build_wide_case)
+
+
 def build_stack_case(case):
     s = AnsiString('abc')
     lay = case['layout']
@@ -114,8 +143,8 @@ def build_stack_case(case):
     return s
 
 
-def check_stack_case(case, prop):
-    v = build_stack_case(case)
+def check_stack_case(case, prop, build=None):
+    v = (build or build_stack_case)(case)
     o = observe(v)
     if prop == 'C01':
         display.check_value(v, o, 'stack_sweep', 1, {})
@@ -164,9 +193,12 @@ def replay(doc):
         except Fail as f:
             return Violation(doc['property'], f.predicate, 0, f.detail)
         return None
-    if doc['case'].get('kind') == 'stack':
+    if doc['case'].get('kind') in ('stack', 'wide'):
         try:
-            check_stack_case(doc['case'], doc['property'])
+            if doc['case']['kind'] == 'wide':
+                check_wide_case(doc['case'], doc['property'])
+            else:
+                check_stack_case(doc['case'], doc['property'])
         except Fail as f:
             return Violation(doc['property'], f.predicate, 0, f.detail)
         return None
@@ -222,6 +254,15 @@ def run_for(prop, tier, out_dir):
         key = 'stack:%s:%d_extras' % (case['layout'], len(case['extras']))
         probes[key] = probes.get(key, 0) + 1
     info['stack_sweep_cases'] = n
+    for case in wide_cases():
+        n += 1
+        try:
+            check_wide_case(case, prop)
+        except Fail as f:
+            return _write_violation(prop, case, Violation(prop, f.predicate, 0, f.detail), out_dir, n, info)
+        key = 'wide:%s:%d_groups' % (case['how'], case['k'])
+        probes[key] = probes.get(key, 0) + 1
+    info['wide_sweep_cases'] = n - info['stack_sweep_cases']
     if prop != 'C01':
         lib.AnsiString.WITH_ASSERTIONS = False
         info['cases'] = n
